@@ -90,6 +90,13 @@ def probes() -> list[Item]:
               [("PUSH", 9)] + runtime_hash(2) + [("PUSH", 0), "CALLDATALOAD", "ADD", "SSTORE", ("PUSHN", 32, (k32(2) + far) % 2**256), "SLOAD"])
     it.inputs = [{"cd0": far}, {"cd0": 0}, {"cd0": far - 1}]
     out.append(it)
+    # a[n-1] the way the optimiser writes it, (keccak(2) - 1) + n, against keccak(2) + m with m = n - 1
+    body = runtime_hash(2) + ["POP", ("PUSH", 0xAA), ("PUSHN", 32, (k32(2) - 1) % 2**256), ("PUSH", 0), "CALLDATALOAD", "ADD", "SSTORE"] + \
+        runtime_hash(2) + [("PUSH", 32), "CALLDATALOAD", "ADD", "SLOAD"]
+    code = assemble(body + [("PUSH", 0), "MSTORE", ("PUSH", 32), ("PUSH", 0), "RETURN"])
+    out.append(Item(Prog(accounts={TARGET: code}, calldata=[Sym("cd0", 256), Sym("cd1", 256)], name="hash-const-minus-one",
+                         meta={"bounded_inputs": {"cd0": 2**64, "cd1": 2**64}}),
+                    [{"cd0": 1, "cd1": 0}, {"cd0": 5, "cd1": 4}, {"cd0": 5, "cd1": 5}, {"cd0": 0, "cd1": 0}], key="probe:hash-const-minus-one"))
     return out
 
 
